@@ -75,6 +75,8 @@ def global_name(it, name, node=None):
                         return FuncV(other.functions[sym])
             if sym in EXC_BASES:
                 return ClassV(sym, None)
+            if modpart == "bisect" and sym in BUILTINS:
+                return BuiltinV(sym, BUILTINS[sym])
             if modpart == "numpy" or modpart.startswith("numpy"):
                 return module_attr(it, ModuleV("numpy"), sym)
             if modpart == "math":
@@ -263,7 +265,28 @@ def construct(it, cv, args, kwargs, node):
 
 # ------------------------------------------------------------------------------------------------ builtins
 def b_len(it, x):
+    if (is_z3(x) and z3.is_arith(x)) or (isinstance(x, (int, float)) and not isinstance(x, bool)) or x is None:
+        raise _Raise("TypeError")  # len() of a number
     return it.seq_len(x)
+
+
+def b_bisect_left(it, lst, x):
+    """bisect_left on a sorted list of concrete length: the number of elements < x (one path per position)"""
+    lst = it.iterable(lst)
+    if not isinstance(lst, list):
+        raise Unsupported("bisect on a symbolic-length sequence")
+    if all(not is_z3(v) for v in lst) and not is_z3(x):
+        import bisect
+
+        return bisect.bisect_left(lst, x)
+    for idx in range(len(lst) + 1):
+        cond = conj(*([to_real(lst[j]) < to_real(x) for j in range(idx)] + [to_real(lst[j]) >= to_real(x) for j in range(idx, len(lst))]))
+        if idx == len(lst):
+            it.assume(cond)  # (the list is sorted: the remaining case)
+            return idx
+        if it.branch(cond):
+            return idx
+    return len(lst)
 
 
 def _as_iter(it, x):
@@ -667,7 +690,7 @@ def b_round(it, x, ndigits=None):
 BUILTINS = {
     "len": b_len, "sum": b_sum, "all": b_all, "any": b_any, "max": b_max, "min": b_min, "abs": b_abs, "float": b_float, "int": b_int,
     "isinstance": b_isinstance, "range": b_range, "zip": b_zip, "enumerate": b_enumerate, "list": b_list, "tuple": b_tuple, "dict": b_dict,
-    "round": b_round, "set": b_set, "sorted": b_sorted, "hasattr": b_hasattr, "print": b_print, "bool": b_bool, "str": b_str, "bin": b_bin, "frozenset": b_frozenset,
+    "bisect_left": b_bisect_left, "round": b_round, "set": b_set, "sorted": b_sorted, "hasattr": b_hasattr, "print": b_print, "bool": b_bool, "str": b_str, "bin": b_bin, "frozenset": b_frozenset,
 }
 
 
@@ -1053,6 +1076,16 @@ def arr_method(it, a, name, args, kwargs, node):
         if name == "append" and isinstance(a, list):
             a.append(args[0])
             return None
+        if name == "insert" and isinstance(a, list) and concrete_int(args[0]) is not None:
+            a.insert(concrete_int(args[0]), args[1])
+            return None
+        if name == "copy" and isinstance(a, (list, dict)):
+            return a.copy()
+        if name == "index" and isinstance(a, list) and not is_concrete(args[0]):
+            for j, v in enumerate(a):
+                if it.branch(it._eqv(args[0], v)):
+                    return j
+            raise _Raise("ValueError")
         if name == "items" and isinstance(a, dict):
             return list(a.items())
         if name == "keys" and isinstance(a, dict):
